@@ -296,7 +296,7 @@ func genC18Case() *rapid.Generator[C18Case] {
 				c.New.Slots[i].MaxBody = 4 - c.New.Slots[i].MaxBody
 			}
 		}
-		c.Mode = rapid.SampledFrom([]string{"pause", "pause", "body-read", "body-read", "failed", "pull-in-flight"}).Draw(t, "mode")
+		c.Mode = rapid.SampledFrom([]string{"pause", "pause", "body-read", "body-read", "failed", "pull-in-flight", "publish-in-flight"}).Draw(t, "mode")
 		c.Pause = rapid.SampledFrom([]string{"state.write-unlocked", "state.write-unlocked", "reload.after-loadauth", "reload.after-updateall"}).Draw(t, "pause")
 		c.Warm = rapid.Bool().Draw(t, "warm")
 		c.Fail = rapid.SampledFrom([]string{"removed", "directory", "garbage", "uncompilable", "secret-missing", "secret-missing-adaptive", "secret-missing-ratelimit", "restart-listen", "restart-max-body", "restart-prefix", "truncated"}).Draw(t, "fail")
@@ -540,6 +540,98 @@ func runC18(c C18Case, tolerate bool) *fOutcome {
 				}
 				out.Failure = f
 				return out
+			}
+		}
+		return out
+
+	case "publish-in-flight":
+		// an Admin publish of two items is in flight across the reload: item 0 has been validated, the
+		// reload is carried out (verif hook before each item), then item 1 is validated
+		if err := os.WriteFile(w.cfgPath, []byte(newText), 0o600); err != nil {
+			out.Failure = ffail("HARNESS", "write", 0, "%v", err)
+			return out
+		}
+		publish := func(rw *frontWorld, tag string, i, j int, tok string, hook func()) string {
+			items := []map[string]any{
+				{"id": fmt.Sprintf("pif-%s-%d-0", tag, i), "route": slotPaths[i], "target": "pull", "payload_b64": "eA=="},
+				{"id": fmt.Sprintf("pif-%s-%d-1", tag, j), "route": slotPaths[j], "target": "pull", "payload_b64": "eQ=="},
+			}
+			body, _ := json.Marshal(map[string]any{"items": items})
+			r := FReq{Method: "POST", Path: "/messages/publish", Host: "a", Remote: "127.0.0.1:1", Body: body,
+				Headers: [][2]string{{"Content-Type", "application/json"}, {"X-Hookaido-Audit-Reason", "verif"}}}
+			if tok != "" {
+				r.Headers = append(r.Headers, [2]string{"Authorization", "Bearer " + tok})
+			}
+			before, _ := rw.store.Stats()
+			if hook != nil {
+				hits := 0
+				verifhook.On("admin.publish.item", func() {
+					hits++
+					if hits == 2 {
+						hook()
+					}
+				})
+				defer verifhook.On("admin.publish.item", nil)
+			}
+			rec := serve(rw.adminH, r)
+			after, _ := rw.store.Stats()
+			return fmt.Sprintf("%d stored=%d", rec.Code, after.Total-before.Total)
+		}
+		for i := range slotPaths {
+			for j := range slotPaths {
+				if i == j {
+					continue
+				}
+				tag := fmt.Sprintf("%d%d", i, j)
+				vOld, vNew := publish(refOld, tag, i, j, c.Old.Admin, nil), publish(refNew, tag, i, j, c.Old.Admin, nil)
+				if vOld != vNew {
+					out.NonTriv = true
+					out.Labels["configs-differ-in-battery"] = true
+				}
+				wi := mkWorld(oldText)
+				if wi == nil {
+					return out
+				}
+				_ = os.WriteFile(wi.cfgPath, []byte(newText), 0o600)
+				fired := false
+				reloaded := make(chan struct{})
+				ans := publish(wi, tag, i, j, c.Old.Admin, func() {
+					fired = true
+					// the reload comes from another goroutine (a signal, the file watcher); it either lands
+					// here, between the two items, or has to wait for the request
+					go func() { wi.reload(); close(reloaded) }()
+					select {
+					case <-reloaded:
+					case <-time.After(40 * time.Millisecond):
+						out.Labels["reload-waited-for-the-request"] = true
+					}
+				})
+				if fired {
+					select {
+					case <-reloaded:
+					case <-time.After(10 * time.Second):
+						wi.close()
+						out.Skipped = "the reload did not finish within 10s of the request"
+						out.Labels["inconclusive-time-budget"] = true
+						return out
+					}
+				}
+				wi.close()
+				if !fired {
+					out.Labels["reload-not-reached-in-request"] = true
+					continue
+				}
+				out.Labels["reload-inside-publish-request"] = true
+				if ans != vOld && ans != vNew {
+					f := ffail("C18,C15", "request-mixed-configuration", i*3+j, "a publish of two items (routes %s, %s) whose first item was validated before the reload and whose second after it answers %q; entirely-old answers %q, entirely-new answers %q\nold:\n%s\nnew:\n%s", slotPaths[i], slotPaths[j], ans, vOld, vNew, oldText, newText)
+					f.Sig = "publish-batch-spans-reload"
+					if tolerate && verifkit.Known(f.Sig) {
+						out.Known = append(out.Known, f.Sig)
+						return out
+					}
+					out.Failure = f
+					return out
+				}
 			}
 		}
 		return out
